@@ -29,6 +29,8 @@ func (e *Engine) opaquePkg(path string) bool {
 var transparentPrefixes = []string{
 	"github.com/shutter-network/rolling-shutter/rolling-shutter",
 	"github.com/ethereum/go-ethereum/common",
+	"github.com/tendermint/tendermint/proto/tendermint/crypto",
+	"github.com/tendermint/tendermint/abci/types",
 }
 
 func (e *Engine) transparentPkg(path string) bool {
@@ -297,6 +299,9 @@ func (e *Engine) push(s *State, f *Frame, x ssa.Value, fn *ssa.Function, bind []
 func (e *Engine) lenOf(s *State, v Value) *Term {
 	switch a := v.(type) {
 	case Sl:
+		if a.SymLen != nil {
+			return a.SymLen
+		}
 		return Idx(a.Len)
 	case BSl:
 		return a.Len
@@ -555,6 +560,13 @@ func (e *Engine) nondetArr(s *State, name string, n int) (*Term, string) {
 	k := s.Names[name]
 	s.Names[name] = k + 1
 	full := fmt.Sprintf("%s#%d", name, k)
+	if n > 0 && n <= 64 && !e.rawArrays {
+		// fixed-size byte string: one wide bit-vector variable
+		w := Var(full, BVS(8*n))
+		s.Extra = append(s.Extra, w)
+		s.ExtraTag = append(s.ExtraTag, fmt.Sprintf("w:%s:%d", full, n))
+		return BVArr(w, n), full
+	}
 	v := Var(full, MemS)
 	for i := 0; i < n; i++ {
 		s.Extra = append(s.Extra, Select(v, Idx(i)))
@@ -725,7 +737,9 @@ func init() {
 		"vfBytes": func(e *Engine, s *State, f *Frame, x ssa.Value, fn *ssa.Function, args []Value, at ssa.Instruction) ([]*State, bool) {
 			n := cint(args[1])
 			name := cstr(args[0])
+			e.rawArrays = true
 			a, _ := e.nondetArr(s, name, n)
+			e.rawArrays = false
 			ln := e.freshVar(s, name+".len", BVS(64))
 			e.addPC(s, Ule(ln, Idx(n)))
 			loc := Ptr{Obj: s.alloc(BA{A: a, N: -1})}
@@ -786,6 +800,17 @@ func init() {
 				}
 			}
 			e.addPC(s, c)
+			return nil, false
+		},
+		"vfOpaqueSlice": func(e *Engine, s *State, f *Frame, x ssa.Value, fn *ssa.Function, args []Value, at ssa.Instruction) ([]*State, bool) {
+			e.setRes(f, x, Sl{Obj: s.alloc(Ar{}), SymLen: args[0].(Sc).T})
+			return nil, false
+		},
+		"vfPutIf": func(e *Engine, s *State, f *Frame, x ssa.Value, fn *ssa.Function, args []Value, at ssa.Instruction) ([]*State, bool) {
+			c := args[0].(Sc).T
+			m := args[1].(If).V.(Mp)
+			k, v := args[2].(If).V, args[3].(If).V
+			e.mapStoreIf(s, m, k, v, c, "vfPutIf")
 			return nil, false
 		},
 		"vfParam": func(e *Engine, s *State, f *Frame, x ssa.Value, fn *ssa.Function, args []Value, at ssa.Instruction) ([]*State, bool) {
